@@ -330,5 +330,33 @@ var parts = []engine.AnyPart{
 		Rule: "grammar-generated near-valid objects (duplicate keys, case variants, escapes, invalid UTF-8, error-object variants), arbitrary JSON values, byte mutations of valid requests, deep nesting; " + rule},
 }
 
+// stopqueue: "neither crashes" also for the records that are still in the
+// inbound queue (valid, invalid, with and without id) when the server is
+// stopped or loses its connection.  Only survival is judged here - a crash
+// kills the worker and the driver reports the journalled case; what else a
+// shutdown owes is C08's.
+func genStopQueue(t *rapid.T) sim.Scenario { return gen.ShutdownScenario(t) }
+
+func runStopQueue(t *testing.T, sc sim.Scenario) engine.Verdict {
+	h := sim.Run(t, sc)
+	queued, stopped := false, false
+	for _, e := range h.Events {
+		switch e.Kind {
+		case "stop", "peerclose", "recvfault":
+			stopped = true
+		case "quiesce":
+			if !stopped && e.Snap != nil {
+				queued = e.Snap.Queued > 0
+			}
+		}
+	}
+	return engine.Verdict{NonTrivial: stopped && queued, Labels: []string{fmt.Sprintf("records-queued-at-stop:%v", stopped && queued)}}
+}
+
+func init() {
+	parts = append(parts, engine.Part[sim.Scenario]{Name: "stopqueue", Run: runStopQueue, Gen: genStopQueue,
+		Rule: "shutdown scripts (records of every kind, a third of them invalid, piling up behind a parked notification; Stop / peer close / channel faults at any point; records after the stop; restart): the process survives - a panic in a server goroutine kills the worker and is reported with the journalled script; non-trivial = records were waiting in the inbound queue at the last quiescent point before the stop; distinct = hash of the scenario"})
+}
+
 func TestProp(t *testing.T)   { engine.RunParts(t, "C02", parts) }
 func TestReplay(t *testing.T) { engine.ReplayParts(t, "C02", parts) }
